@@ -2,7 +2,7 @@
 # tools/benigncheck.sh <dir-with-BENIGN/<i>/patch.diff> : every check must stay silent on behaviour-preserving changes
 SRC=$1; OUT=${2:-/tmp/benign-results.txt}; : > $OUT
 export GOFLAGS=-mod=mod GOPROXY=off GOSUMDB=off GOTOOLCHAIN=local
-for i in $(ls $SRC/BENIGN | sort -n); do
+for i in $(ls $SRC/BENIGN | grep -E "^[0-9]+$" | sort -n); do
   D=/var/tmp/benign-$$-$i
   git -C /repo worktree add -q $D HEAD || exit 9
   (cd $D && git apply $SRC/BENIGN/$i/patch.diff && go build ./...) || { echo "benign $i DOES-NOT-APPLY-OR-BUILD" >> $OUT; git -C /repo worktree remove --force $D; continue; }
